@@ -42,6 +42,7 @@ const prelude = `(set-option :produce-models true)
 (assert (forall ((a Int) (b Int) (t Int)) (! (=> (or (scontains a t) (scontains b t)) (scontains (scat a b) t)) :pattern ((scontains (scat a b) t)))))
 (assert (forall ((a Int) (b Int) (p Int)) (! (=> (sprefix a p) (sprefix (scat a b) p)) :pattern ((sprefix (scat a b) p)))))
 (assert (forall ((a Int) (b Int) (p Int)) (! (=> (and (>= (slen a) (slen p)) (not (sprefix a p))) (not (sprefix (scat a b) p))) :pattern ((sprefix (scat a b) p)))))
+(assert (forall ((a Int) (p Int) (q Int)) (! (=> (and (sprefix a p) (sprefix p q)) (sprefix a q)) :pattern ((sprefix a p) (sprefix p q)))))
 (declare-fun ix (Int Int) Int)
 (assert (forall ((o Int) (i Int)) (! (= (ix o i) (+ o i)) :pattern ((ix o i)))))
 (define-fun nil_slice () Slice (mk_slice 0 0 0 0))
